@@ -184,6 +184,7 @@ func (s *BaseSeeder) readerLoop() {
 				session.senderI = int(s.sessionsCounter % uint32(s.cfg.SenderThreads))
 				sessions = append(sessions, op.request.Session.ID)
 				s.peerSessions[op.peer.ID] = sessions
+				s.sessions[sessionIDAndPeer{op.request.Session.ID, op.peer.ID}] = session
 				s.sessionsCounter++
 			}
 
